@@ -101,7 +101,7 @@ ReqExtras(mm, f, r) ==
                                      \/ Len(StripZeros(v)) > Len(DigitsOf(MaxBody(mm))))
       bodyTooBig == f.ty = T_DATA /\ r.body + f.dlen > MaxBody(mm)
       finalBody == r.body + (IF f.ty = T_DATA THEN f.dlen ELSE 0)
-      clMismatch == f.es /\ f.ty \in {T_DATA, T_HEADERS} /\ r.hasReq /\ ~ContentLengthOK(r.req, finalBody)
+      clMismatch == ((f.es /\ f.ty \in {T_DATA, T_HEADERS}) \/ (f.ty = T_CONT /\ f.eh /\ r.pblkES)) /\ r.hasReq /\ ~ContentLengthOK(r.req, finalBody)
       clMismatch0 == ((f.es /\ f.ty = T_HEADERS /\ f.first) \/ (f.ty = T_CONT /\ f.eh /\ r.pblkES)) /\ ~r.hasReq /\ ~ContentLengthOK(blk, 0)
   IN (IF malformed \/ clMismatch \/ clMismatch0 THEN {SE(E_PROTO), RESP4} ELSE {}) \cup
      (IF toolarge THEN {CE(E_CALM), CE(E_PROTO), SE(AnyCode), RESP4} ELSE {}) \cup
